@@ -20,7 +20,7 @@ THEOREMS = ["Pfl.CFG.cfgMem_iff",
 
 def generate(rng, tier):
     while True:
-        yield {"g": G.gen_cfg(rng), "wseed": rng.randrange(1 << 30)}
+        yield {"g": (G.gen_cfg(rng, max_vars=5, max_prods=11) if tier == "thorough" and rng.random() < 0.25 else G.gen_cfg(rng)), "wseed": rng.randrange(1 << 30)}
 
 
 def run_case(case, drv):
